@@ -16,10 +16,10 @@ for st in stems:
     if st == prop:
         names += re.findall(r'^theorem\s+(C\d+_\w+)', src, re.M)
     if st.startswith('Link'):
-        names += re.findall(r'^theorem\s+((?:Link|LinkH|LinkP|LinkS|LinkT|LinkB|LinkZ|Exact)_\w+)', src, re.M)
+        names += re.findall(r'^theorem\s+((?:Link|LinkH|LinkP|LinkS|LinkT|LinkB|LinkZ|LinkR|Exact)_\w+)', src, re.M)
         only = os.environ.get('LINK_ONLY')      # e.g. LINK_ONLY=LinkH_scan,LinkH_first to register a subset of shared link modules
         if only is not None:
-            names = [n for n in names if not re.match(r'(Link|LinkH|LinkP|LinkS|LinkT|LinkB|LinkZ|Exact)_', n) or n in only.split(',')]
+            names = [n for n in names if not re.match(r'(Link|LinkH|LinkP|LinkS|LinkT|LinkB|LinkZ|LinkR|Exact)_', n) or n in only.split(',')]
 reg = json.load(open(os.path.join(ROOT, 'theorems.json')))
 reg[prop] = {'modules': mods, 'theorems': [{'name': 'Rx.' + n} for n in names]}
 gen = ['RxModel.Props.%s' % st for st in stems if st.startswith('Link')]
